@@ -6,8 +6,8 @@ open Verif.Props.C19
 #print axioms dst_injective_same_root
 #print axioms dst_injective_walk
 #print axioms dst_injective
-#print axioms only_dst_touched_partial
-#print axioms only_dst_touched_counterexample
+#print axioms only_dst_touched
+#print axioms plan_noSyncBundle
 #print axioms rejected_touches_nothing
 #print axioms exit_nonzero_iff_fail
 #print axioms concat_is_join
